@@ -18,6 +18,7 @@ import (
 
 	fibmap "github.com/frostschutz/go-fibmap"
 	"github.com/openebs/jiva/app"
+	"github.com/openebs/jiva/backend/remote"
 	crest "github.com/openebs/jiva/controller/rest"
 	inject "github.com/openebs/jiva/error-inject"
 	rclient "github.com/openebs/jiva/replica/client"
@@ -94,6 +95,15 @@ func installHooks() {
 				ch := make(chan vtime.Time)
 				cl.cleanerTick[cl.pendingCleaner] = ch
 				cl.pendingCleaner = -1
+				return ch
+			}
+			return never
+		}
+		if d == remote.VerifPingInterval {
+			// monitorPing's 2 s ticker of a backend with the real monitor (Cfg.RealMon): fired by hand (Tick events)
+			if cl := curr; cl != nil && cl.pendingPing != nil {
+				ch := make(chan vtime.Time)
+				cl.pendingPing <- ch
 				return ch
 			}
 			return never
